@@ -154,7 +154,10 @@ Proof.
   { intros x. eapply exn_in_weaken; [|apply H]. intros e He; simpl; auto. }
   destruct (has_slash last); [inl|].
   destruct (head_is_P first); [|destruct (head_is_P last)];
-    (apply exn_in_bind; [apply H'|intros a; apply exn_in_bind; [apply H'|intros b; exact I]]).
+    (apply exn_in_bind; [apply H'|intros a; apply exn_in_bind; [apply H'|intros b]]).
+  - destruct (endpoint_ok b); inl.
+  - destruct (endpoint_ok a); inl.
+  - destruct (endpoint_ok a && endpoint_ok b); inl.
 Qed.
 
 (* shapes of the halves with the compiled parser *)
@@ -166,19 +169,25 @@ Definition rs_form (f : iform) : Prop :=
   | _ => False
   end.
 
+Lemma endpoint_ok_ip i : endpoint_ok i = true -> exists p, i = I_p p /\ ((p_kind p =? 1) || (p_kind p =? 2)) = true.
+Proof. destruct i as [p| |]; try discriminate. intros H. exists p. split; [reflexivity|exact H]. Qed.
+
 Lemma interval_parse_rs_form s f : interval_parse rs_iso8601 s = Ok f -> rs_form f.
 Proof.
   unfold interval_parse. destruct (split_slash s) as [first [last|]]; [|discriminate].
   destruct (has_slash last); [discriminate|].
   destruct (head_is_P first) eqn:HF; [|destruct (head_is_P last) eqn:HL].
   - destruct (rs_iso8601 first) as [d|] eqn:E1; [|discriminate]. simpl.
-    destruct (rs_iso8601 last) as [b|] eqn:E2; [|discriminate]. simpl. intros E; inversion E; subst. simpl.
-    destruct (rs_iso8601_P _ _ HF E1) as [r ->]. eapply rs_iso8601_shape; eauto.
+    destruct (rs_iso8601 last) as [b|] eqn:E2; [|discriminate]. simpl.
+    destruct (endpoint_ok b) eqn:EB; [|discriminate]. intros E; inversion E; subst. simpl.
+    destruct (rs_iso8601_P _ _ HF E1) as [r ->]. destruct (endpoint_ok_ip _ EB) as [p [-> _]]. simpl. destruct (p_kind p =? 2); exact I.
   - destruct (rs_iso8601 first) as [a|] eqn:E1; [|discriminate]. simpl.
-    destruct (rs_iso8601 last) as [d|] eqn:E2; [|discriminate]. simpl. intros E; inversion E; subst. simpl.
-    destruct (rs_iso8601_nonP _ _ HF E1) as [p ->]. destruct (rs_iso8601_P _ _ HL E2) as [r ->]. exact I.
+    destruct (rs_iso8601 last) as [d|] eqn:E2; [|discriminate]. simpl.
+    destruct (endpoint_ok a) eqn:EA; [|discriminate]. intros E; inversion E; subst. simpl.
+    destruct (rs_iso8601_nonP _ _ HF E1) as [p ->]. destruct (rs_iso8601_P _ _ HL E2) as [r ->]. simpl. destruct (p_kind p =? 2); exact I.
   - destruct (rs_iso8601 first) as [a|] eqn:E1; [|discriminate]. simpl.
-    destruct (rs_iso8601 last) as [b|] eqn:E2; [|discriminate]. simpl. intros E; inversion E; subst. simpl.
+    destruct (rs_iso8601 last) as [b|] eqn:E2; [|discriminate]. simpl.
+    destruct (endpoint_ok a && endpoint_ok b); [|discriminate]. intros E; inversion E; subst. simpl.
     destruct (rs_iso8601_nonP _ _ HF E1) as [p ->]. destruct (rs_iso8601_nonP _ _ HL E2) as [q ->]. exact I.
 Qed.
 
@@ -267,7 +276,29 @@ Proof.
     apply exn_in_bind; [apply interval_init_exn|intros _; exact I].
 Qed.
 
-(* ... and with another kind of endpoint the assembly raises before any arithmetic *)
+(* _parse_iso8601_interval only lets date and date-time endpoints through and turns a date next to a duration into a date-time:
+   every form it returns (either backend) has date-time endpoints in the sense of all_dt *)
+Lemma interval_parse_dt iso s f : interval_parse iso s = Ok f -> all_dt f = true.
+Proof.
+  unfold interval_parse. destruct (split_slash s) as [first [last|]]; [|discriminate].
+  destruct (has_slash last); [discriminate|].
+  assert (M : forall p, ((p_kind p =? 1) || (p_kind p =? 2)) = true ->
+              match at_midnight (I_p p) with I_p q => p_kind q =? 1 | _ => false end = true).
+  { intros p H. unfold at_midnight. destruct (p_kind p =? 2) eqn:K2; [reflexivity|]. rewrite orb_false_r in H. exact H. }
+  destruct (head_is_P first); [|destruct (head_is_P last)].
+  - destruct (iso first) as [d|]; [|discriminate]. simpl. destruct (iso last) as [b|]; [|discriminate]. simpl.
+    destruct (endpoint_ok b) eqn:EB; [|discriminate]. intros E; inversion E; subst.
+    destruct (endpoint_ok_ip _ EB) as [p [-> K]]. specialize (M p K). unfold all_dt. destruct (at_midnight (I_p p)); [exact M|discriminate|discriminate].
+  - destruct (iso first) as [a|]; [|discriminate]. simpl. destruct (iso last) as [d|]; [|discriminate]. simpl.
+    destruct (endpoint_ok a) eqn:EA; [|discriminate]. intros E; inversion E; subst.
+    destruct (endpoint_ok_ip _ EA) as [p [-> K]]. specialize (M p K). unfold all_dt. destruct (at_midnight (I_p p)); [exact M|discriminate|discriminate].
+  - destruct (iso first) as [a|]; [|discriminate]. simpl. destruct (iso last) as [b|]; [|discriminate]. simpl.
+    destruct (endpoint_ok a) eqn:EA; [|discriminate]. destruct (endpoint_ok b) eqn:EB; [|discriminate]. cbn [andb]. intros E; inversion E; subst.
+    destruct (endpoint_ok_ip _ EA) as [p [-> Kp]]. destruct (endpoint_ok_ip _ EB) as [q [-> Kq]]. unfold all_dt.
+    destruct (p_kind p =? 1), (p_kind p =? 2), (p_kind q =? 1), (p_kind q =? 2); try discriminate; reflexivity.
+Qed.
+
+(* ... and with another kind of endpoint the assembly raises before any arithmetic (not reachable from _parse_iso8601_interval any more) *)
 Lemma assemble_rs_nondt o f : rs_form f -> all_dt f = false -> exn_in [E_TypeError; E_AttributeError] (assemble true o f).
 Proof.
   destruct f as [a b|a d|d b]; unfold assemble, rs_form, all_dt.
@@ -313,38 +344,34 @@ Definition rs_duration_overflow (s : list Z) : bool :=
 
 Section Chain.
   Variable du : list Z -> bool -> bool -> result pval.
-  Hypothesis du_ok : forall s a b, out_ok (du s a b).
+  (* all that is asked of dateutil: a datetime, a ValueError or an OverflowError (it raises one on long digit runs) *)
+  Hypothesis du_ok : forall s a b, exn_in [E_ValueError; E_ParserError; E_OverflowError] (du s a b).
 
   Theorem parse_total_rs_all : forall o s,
     match parse_full du true o s with
     | Ok _ => True
     | Raise E_ValueError | Raise E_ParserError => True
-    | Raise E_TypeError | Raise E_AttributeError => interval_nondt true s = true
-    | Raise E_OverflowError => rs_duration_overflow s = true \/ (interval_ok true s = true /\ interval_nondt true s = false)
     | Raise _ => False
     end.
   Proof.
     intros o s. unfold parse_full. destruct (is_now s); [exact I|].
-    unfold base_parse, interval_nondt, interval_ok, rs_duration_overflow. cbn [iso8601].
+    unfold base_parse. cbn [iso8601].
     pose proof (rs_iso8601_ve s) as H1. pose proof (rs_iso8601_shape s) as S1.
     destruct (rs_iso8601 s) as [i|e1].
     - (* a single value *)
       cbn [bind]. destruct i as [p|r|x ob].
       + destruct (finish_ip true o p) as [v ->]. exact I.
       + rewrite normalize_other by (intros p; discriminate). cbn [finish].
-        pose proof (rs_glue_exn r) as G. destruct (rs_glue r) as [xo|e]; [exact I|]. simpl in G. destruct G as [<-|[]]. cbn [bind]. left; reflexivity.
+        pose proof (rs_glue_exn r) as G. destruct (rs_glue r) as [xo|e]; [exact I|]. simpl in G. destruct G as [<-|[]]. exact I.
       + destruct (S1 _ eq_refl).
     - simpl in H1. destruct H1 as [<-|[]]. cbn [is_ve negb].
       pose proof (interval_parse_exn rs_iso8601 [E_ValueError] s rs_iso8601_ve) as H2.
       pose proof (interval_parse_rs_form s) as F2.
-      destruct (interval_parse rs_iso8601 s) as [f|e2].
+      destruct (interval_parse rs_iso8601 s) as [f|e2] eqn:E2f.
       + cbn [bind]. rewrite normalize_other by (intros p; discriminate). cbn [finish].
-        specialize (F2 f eq_refl).
-        destruct (all_dt f) eqn:A.
-        * pose proof (assemble_rs_dt o f F2 A) as H. destruct (assemble true o f) as [v|e]; [exact I|].
-          simpl in H. destruct H as [<-|[<-|[]]]; [exact I|]. right; split; reflexivity.
-        * pose proof (assemble_rs_nondt o f F2 A) as H. destruct (assemble true o f) as [v|e]; [exact I|].
-          simpl in H. destruct H as [<-|[<-|[]]]; reflexivity.
+        specialize (F2 f eq_refl). pose proof (interval_parse_dt _ _ _ E2f) as A.
+        pose proof (assemble_rs_dt o f F2 A) as H. destruct (assemble true o f) as [v|e]; [exact I|].
+        simpl in H. destruct H as [<-|[<-|[]]]; exact I.
       + simpl in H2. assert (V : is_ve e2 = true) by (destruct H2 as [<-|[<-|[<-|[]]]]; reflexivity). rewrite V. cbn [negb].
         pose proof (common_classes (o_day_first o) s) as H3.
         destruct (common_parse_df (o_day_first o) s) as [p|e3].
@@ -353,8 +380,9 @@ Section Chain.
           destruct (o_strict o); [exact I|].
           pose proof (du_ok s (o_day_first o) (o_year_first o)) as D.
           destruct (du s (o_day_first o) (o_year_first o)) as [p|e4].
-          -- cbn [bind]. destruct (finish_ip true o p) as [v ->]. exact I.
-          -- destruct e4; try contradiction; exact I.
+          -- destruct (match p_off p with Some z => (z <=? -86400) || (86400 <=? z) | None => false end); [exact I|].
+             cbn [bind]. destruct (finish_ip true o p) as [v ->]. exact I.
+          -- simpl in D. destruct D as [<-|[<-|[<-|[]]]]; exact I.
   Qed.
 End Chain.
 
@@ -381,8 +409,9 @@ Qed.
 (* when the oracle IS reached the result is the oracle's datetime (delivered by _normalize / parser.py) or ParserError *)
 Lemma oracle_reached du rs o s : reaches_oracle rs o s = true -> is_now s = false ->
   parse_full du rs o s = match du s (o_day_first o) (o_year_first o) with
-                         | Ok p => finish rs o (normalize o (R_i (I_p p)))
-                         | Raise E_ValueError | Raise E_ParserError => Raise E_ParserError
+                         | Ok p => if match p_off p with Some z => bad_off z | None => false end then Raise E_ParserError
+                                   else finish rs o (normalize o (R_i (I_p p)))
+                         | Raise E_ValueError | Raise E_ParserError | Raise E_OverflowError => Raise E_ParserError
                          | Raise e => Raise e
                          end.
 Proof.
@@ -393,5 +422,33 @@ Proof.
   destruct (is_ve e2); [|discriminate]. cbn [negb andb] in *.
   destruct (common_parse_df (o_day_first o) s) as [|e3]; [discriminate|].
   destruct e3; try discriminate. destruct (o_strict o); [discriminate|].
-  destruct (du s (o_day_first o) (o_year_first o)) as [p|e9]; [reflexivity|]. destruct e9; reflexivity.
+  destruct (du s (o_day_first o) (o_year_first o)) as [p|e9]; [|destruct e9; reflexivity].
+  unfold bad_off. destruct (match p_off p with Some z => (z <=? -86400) || (86400 <=? z) | None => false end); reflexivity.
+Qed.
+
+(* ------------------------------------------------------------------ offsets: 24 h and more are rejected by both recognisers *)
+Lemma rs_parse_int_bound : forall n s acc v r, rs_parse_int n s acc = Some (v, r) ->
+  10 ^ Z.of_nat n * acc <= v <= 10 ^ Z.of_nat n * acc + (10 ^ Z.of_nat n - 1).
+Proof.
+  induction n as [|n IH]; intros s acc v r H.
+  - simpl in H. inversion H; subst. change (Z.of_nat 0) with 0. rewrite Z.pow_0_r. lia.
+  - cbn [rs_parse_int] in H. destruct s as [|c t]; [discriminate|]. destruct (IsoParse.is_digit c) eqn:D; [|discriminate].
+    apply IH in H. unfold IsoParse.is_digit in D. rewrite Nat2Z.inj_succ, Z.pow_succ_r by lia.
+    assert (0 < 10 ^ Z.of_nat n) by (apply Z.pow_pos_nonneg; lia).
+    apply andb_true_iff in D. destruct D as [D1 D2]. apply Z.leb_le in D1, D2. nia.
+Qed.
+
+Lemma rs_offset_in_range s o r : rs_offset s = Some (Some o, r) -> bad_off o = false.
+Proof.
+  unfold rs_offset, bad_off. destruct (cur s =? ch_Z); [intros H; inversion H; reflexivity|].
+  destruct ((cur s =? ch_plus) || (cur s =? ch_dash)); [|discriminate].
+  destruct (rs_parse_int 2 (inc s) 0) as [[tzh s1]|] eqn:E1; [|discriminate].
+  apply rs_parse_int_bound in E1. change (10 ^ Z.of_nat 2) with 100 in E1.
+  match goal with |- context [if isend ?x then _ else _] => destruct (isend x) end.
+  - destruct (0 + tzh * 60 >=? 24 * 60) eqn:B; [discriminate|]. intros H; inversion H; subst.
+    rewrite Z.geb_leb in B. apply Z.leb_gt in B. destruct (cur s =? ch_plus); apply orb_false_iff; split; apply Z.leb_gt; lia.
+  - match goal with |- context [rs_parse_int 2 ?x 0] => destruct (rs_parse_int 2 x 0) as [[tzm s3]|] eqn:E2 end; [|discriminate].
+    apply rs_parse_int_bound in E2. change (10 ^ Z.of_nat 2) with 100 in E2.
+    destruct (tzm + tzh * 60 >=? 24 * 60) eqn:B; [discriminate|]. intros H; inversion H; subst.
+    rewrite Z.geb_leb in B. apply Z.leb_gt in B. destruct (cur s =? ch_plus); apply orb_false_iff; split; apply Z.leb_gt; lia.
 Qed.
